@@ -2475,15 +2475,11 @@ func (c *compiler) VisitWhileStmt(s *ast.WhileStmt) ast.VisitResult {
 // for info on how the generated ir works you might want to see https://llir.github.io/document/user-guide/control/#Loop
 func (c *compiler) VisitForStmt(s *ast.ForStmt) ast.VisitResult {
 	new_IorF_comp := func(ipred enum.IPred, fpred enum.FPred, x value.Value, xType ddpIrType, yi value.Value, yiType ddpIrType, yf value.Value) value.Value {
-		if ddptypes.DeepEqual(s.Initializer.Type, ddptypes.BYTE) {
-			x, yi = c.floatOrByteAsInt(x, xType), c.floatOrByteAsInt(yi, yiType)
-		}
-
+		// end value and step may be of any numeric type: compare in the type of the counter
 		if ddptypes.DeepEqual(s.Initializer.Type, ddptypes.KOMMAZAHL) {
-			return c.cbb.NewFCmp(fpred, x, yf)
-		} else {
-			return c.cbb.NewICmp(ipred, x, yi)
+			return c.cbb.NewFCmp(fpred, c.intOrByteAsFloat(x, xType), c.intOrByteAsFloat(yi, yiType))
 		}
+		return c.cbb.NewICmp(ipred, c.floatOrByteAsInt(x, xType), c.floatOrByteAsInt(yi, yiType))
 	}
 
 	loopScopeBack, leaveBlockBack, continueBlockBack := c.curLoopScope, c.curLeaveBlock, c.curContinueBlock
